@@ -94,7 +94,7 @@ func c10State(c *Ctx, n *Node) []Violation {
 }
 
 func checkC10(e *RunEnv) *CheckResult {
-	N := []string{"a", "a.b", "b", "main", "C", "c", "a.lock"}
+	N := []string{"a", "a.b", "b", "main", "C", "c", "a.lock", "head"}
 	if e.Thorough() {
 		N = append(N, "ab", "a-b")
 	}
